@@ -73,7 +73,9 @@ def judge_probes(res: Result, sc, ref, rec, tagp="C02"):
             continue
         sg = ref.sgn
         exact_time = n in steps
-        tol = (1e-9 if exact_time else 1e-4) * ref.scale() + 1e-14
+        # at a frame the field is the stored float32 frame itself: only interpolation rounding remains
+        # (2e-6 leaves room for an implementation that interpolates in single precision)
+        tol = (2e-6 if exact_time else 1e-4) * ref.scale() + 1e-14
         res.feed(U, V)
         klo, khi, a, near = ref.vertical(X, Y, Z)
         res.probes["above_top_level"] += int(((a == 0.0) & (khi == ref.N - 1) & ok).any())
@@ -88,7 +90,7 @@ def judge_probes(res: Result, sc, ref, rec, tagp="C02"):
                               f"u,v=({U[p]:.9g},{V[p]:.9g})", f"({ur[p]:.9g},{vr[p]:.9g}) tol {tol:.2g}"))
         if exact_time:
             # convexity: within the range of the eight surrounding (masked) node values
-            eps = 1e-9 * ref.scale() + 1e-14
+            eps = 2e-6 * ref.scale() + 1e-14
             su, sv = sg * U, sg * V
             badb = okv & ((su < ulo - eps) | (su > uhi + eps) | (sv < vlo - eps) | (sv > vhi + eps))
             if badb.any():
